@@ -307,3 +307,120 @@ LOGICAL_PARSE.clause_tags["no_input_mutation"] = ["C19"]
 for _e, _d in list(_XOR_RAISES.items()) + list(_NOT_RAISES.items()) + list(_AND_RAISES.items()) + list(_UNION_RAISES.items()):
     for _lbl in _d:
         LOGICAL_PARSE.clause_tags["%s.%s" % (_e, _lbl)] = ["C09"]
+
+
+# ------------------------------------------------------------------------------------ construction (C09 algebra, partial)
+
+made_by = z3.Function("combine_made_by", V, S, B)       # ghost: result was produced by combine(op, *S)
+nargs = z3.Function("combine_nargs", V, I)
+argat = z3.Function("combine_argat", V, I, V)
+
+
+@specfn("made_by")
+def _made_by(ex, fr, r, op):
+    return VBool(made_by(ex.box(r), op.t))
+
+
+@specfn("nargs")
+def _nargs(ex, fr, r):
+    return VInt(nargs(ex.box(r)))
+
+
+@specfn("argat")
+def _argat(ex, fr, r, i):
+    return VObj(argat(ex.box(r), i.t if isinstance(i, VInt) else z3.IntVal(i)))
+
+
+@contract(R, "LogicalType.combine", props=["C09"])
+class COMBINE:
+    """interface (ghost record of the call): the result was produced from `operator` and exactly the given
+    argument sequence, in that order.  What combine does with it (Any absorption, de-duplication,
+    collapse of a single argument) is NOT under contract."""
+    self_model = "LogicalClass"
+    cases = {"any": dict(operator=STR, args=Seq("tuple"))}
+    result = OBJ_NN
+    returns = {"operator_recorded": "made_by(result, operator)", "count_recorded": "nargs(result) == len(args)",
+               "arguments_recorded_in_order": "forall(len(args), lambda i: argat(result, i) is at(args, i))"}
+    only_raises = ["Exception"]
+    trusted = "ghost record of the call; the body (Any absorption, de-duplication, single-argument collapse, class creation) is not verified"
+
+
+def _parts_spec(who, comb):
+    """the operand `who` contributes its own arguments when it is a combination by the same operator, else itself"""
+    return who
+
+
+_LC = Rec("LogicalClass")
+
+
+def _cb_cases():
+    out = {}
+    for comb in ("&", "|", "^"):
+        for rn, rd in (("forward", FALSE), ("reverse", TRUE)):
+            out["same-op,other-plain,%s,%s" % (rn, comb)] = dict(cls=Rec("LogicalClass", combinator=Str(comb)), comb=Str(comb), other=OBJ_NN, reverse=rd)
+            out["other-op,other-plain,%s,%s" % (rn, comb)] = dict(cls=Rec("LogicalClass", combinator=Str("~")), comb=Str(comb), other=OBJ_NN, reverse=rd)
+            out["other-op,other-same-op,%s,%s" % (rn, comb)] = dict(cls=Rec("LogicalClass", combinator=Str("~")), comb=Str(comb),
+                                                                  other=Rec("LogicalClass", combinator=Str(comb)), reverse=rd)
+    return out
+
+
+def _cb_post(case):
+    cop, oth, rev, _comb = case.split(",")
+    left = "cls.args" if cop == "same-op" else None          # None: the single operand cls
+    right = "other.args" if oth == "other-same-op" else None
+    ll = "len(cls.args)" if left else "1"
+    rl = "len(other.args)" if right else "1"
+    d = {"operator": "made_by(result, comb)", "count": "nargs(result) == %s + %s" % (ll, rl)}
+
+    def seg(name, start, src, single):
+        if src:
+            return "forall(len(%s), lambda i: argat(result, %s + i) is at(%s, i))" % (src, start, src)
+        return "argat(result, %s) is %s" % (start, single)
+    if rev == "forward":
+        d["left_operand_first"] = seg("l", "0", left, "cls")
+        d["then_right_operand"] = seg("r", ll, right, "other")
+    else:
+        d["right_operand_first"] = seg("r", "0", right, "other")
+        d["then_left_operand"] = seg("l", rl, left, "cls")
+    return d
+
+
+@contract(R, "LogicalType.combine_by", props=["C09"])
+class COMBINE_BY:
+    """nested combinators of the same kind flatten; the operands keep their reading order
+    (`reverse` puts the other operand first: it is the left operand of a reflected operator)"""
+    cases = _cb_cases()
+    returns_by_case = {cn: _cb_post(cn) for cn in _cb_cases()}
+    only_raises = ["Exception"]
+
+    @staticmethod
+    def setup(ex, frame):
+        o = frame.env["other"]
+        if isinstance(o, VObj):
+            # a plain operand: not a LogicalType, not a tuple
+            lt = ex.world.repo_class(R, "LogicalType", ex)
+            ex.assume(z3.Not(sym.sub(sym.ty(o.t), lt.t)))
+            ex.assume(z3.Not(sym.sub(sym.ty(o.t), ex.world.classes.of_py(tuple).t)))
+
+
+def _op_contract(name, op, reverse):
+    first, second = ("other", "cls") if reverse else ("cls", "other")
+
+    @contract(R, "LogicalType." + name, props=["C09"])
+    class _:
+        __doc__ = "`%s`: %s %s %s -- conjunction / union / xor take their operands in reading order" % (
+            name, "other" if reverse else "cls", op, "cls" if reverse else "other")
+        cases = {"plain-operands": dict(cls=Rec("LogicalClass", combinator=Str("~")), other=OBJ_NN)}
+        returns = {"operator": "made_by(result, '%s')" % op, "two_operands": "nargs(result) == 2",
+                   "reading_order": "argat(result, 0) is %s and argat(result, 1) is %s" % (first, second)}
+        only_raises = ["Exception"]
+        setup = COMBINE_BY.setup
+
+        @staticmethod
+        def _s(ex, frame):
+            pass
+    return _
+
+
+for _nm, _op, _rev in (("__and__", "&", False), ("__rand__", "&", True), ("__xor__", "^", False), ("__rxor__", "^", True)):
+    _op_contract(_nm, _op, _rev)
